@@ -9,6 +9,7 @@ Geo3x2 == <<{0}, {0, 1}, {1}>>
 Geo4x3 == <<{0}, {0, 1}, {1, 2}, {2}>>
 Geo2x3 == <<{0, 1, 2}, {2}>>      \* a piece that spans three files (a middle section exists)
 
-MCInit == InitWith([np |-> NP, nf |-> NF, fo |-> [p \in 0 .. (NP - 1) |-> FO[p + 1]], sync |-> SYNC, design |-> DESIGN, werr |-> WERR])
+MCInit == InitWith([np |-> NP, nf |-> NF, fo |-> [p \in 0 .. (NP - 1) |-> FO[p + 1]], sync |-> SYNC, design |-> DESIGN, werr |-> WERR,
+                   env |-> FALSE, onforeign |-> "refuse", readd |-> "fresh"])
 MCSpec == MCInit /\ [][Next]_vars
 =============================================================================
